@@ -172,7 +172,9 @@ func (ex *Exec) activeLoopIDs() []string {
 	return out
 }
 
-func loopID(fn *ssa.Function, li *loopInfo) string { return fmt.Sprintf("%s#%d", fn.String(), li.ordinal) }
+func loopID(fn *ssa.Function, li *loopInfo) string {
+	return fmt.Sprintf("%s#%d", fn.String(), li.ordinal)
+}
 
 // ---------------------------------------------------------------------------
 // anchors
@@ -334,10 +336,10 @@ func (ex *Exec) anchorsAfterStore(x *ssa.Store, p PtrV) {
 }
 
 // lock discipline hooks (filled in by the concurrency layer)
-func (ex *Exec) checkWrite(p PtrV, pos token.Pos)       { ex.lockCheck(p, true, pos) }
-func (ex *Exec) checkRead(p PtrV, pos token.Pos)        { ex.lockCheck(p, false, pos) }
-func (ex *Exec) checkWriteMap(m Term, pos token.Pos)    {}
-func (ex *Exec) checkReadMap(m Term, pos token.Pos)     {}
+func (ex *Exec) checkWrite(p PtrV, pos token.Pos)    { ex.lockCheck(p, true, pos) }
+func (ex *Exec) checkRead(p PtrV, pos token.Pos)     { ex.lockCheck(p, false, pos) }
+func (ex *Exec) checkWriteMap(m Term, pos token.Pos) {}
+func (ex *Exec) checkReadMap(m Term, pos token.Pos)  {}
 
 // ---------------------------------------------------------------------------
 // builtins
